@@ -35,8 +35,12 @@ class One:
     """A sentinel value representing the identity operator.
 
     Used for the zeroth order of a unitary transformation.
-    Does not support any methods, and should be handled by other code.
+    Only supports taking the adjoint, any other usage should be handled by other
+    code.
     """
+
+    def adjoint(self) -> Self:
+        return self  # The identity is Hermitian.
 
     def __repr__(self) -> str:
         return "one"
